@@ -545,3 +545,164 @@ func init() {
 			return out
 		}})
 }
+
+// OUTLEVEL1 — a working level taken from one operand is applied to the receiver.
+//
+// OUTLEVEL handles `level := utils.Min(a.Level(), opOut.Level())`. Some operations take their working level from one
+// operand alone (`levelQ := op1.LevelQ()`: the external product is computed at the level of the RGSW ciphertext) and
+// run every ring operation there. A receiver allocated at a higher level then keeps its upper residues, unrelated to
+// the result, under a level that declares them valid.
+//
+// Rule: in a method with a parameter opOut, a local named level… defined as the Level()/LevelQ() of another parameter
+// and used as the argument of an AtLevel call is also the level argument of a Resize of opOut, or opOut's level is
+// compared with it, or opOut is handed together with it to a callee.
+func scanOutLevel1(c *core.Ctx) []ob {
+	var out []ob
+	n := 0
+	c.FuncDecls(func(pk *packages.Package, file *ast.File, fd *ast.FuncDecl) {
+		rel := core.ShortPkg(pk.PkgPath)
+		if fd.Body == nil || fd.Recv == nil || !fd.Name.IsExported() || fileIsTestSupport(c.Program, fd.Pos()) || !(c.IsFixture || strings.HasPrefix(rel, "schemes/") || strings.HasPrefix(rel, "core/") || strings.HasPrefix(rel, "circuits/")) {
+			return
+		}
+		info := pk.TypesInfo
+		fn, _ := info.Defs[fd.Name].(*types.Func)
+		if fn == nil {
+			return
+		}
+		sig := fn.Type().(*types.Signature)
+		var outP *types.Var
+		params := map[types.Object]bool{}
+		for i := 0; i < sig.Params().Len(); i++ {
+			p := sig.Params().At(i)
+			params[p] = true
+			if p.Name() == "opOut" && isMetaCarrier(p.Type()) {
+				outP = p
+			}
+		}
+		if outP == nil {
+			return
+		}
+		fkey := core.FuncKey(pk, fd)
+		ast.Inspect(fd.Body, func(x ast.Node) bool {
+			as, ok := x.(*ast.AssignStmt)
+			if !ok || as.Tok != token.DEFINE || len(as.Lhs) != len(as.Rhs) {
+				return true
+			}
+			for i, l := range as.Lhs {
+				id, ok := l.(*ast.Ident)
+				if !ok {
+					continue
+				}
+				low := strings.ToLower(id.Name)
+				if !strings.HasPrefix(low, "level") || strings.HasPrefix(low, "levelp") {
+					continue
+				}
+				call, ok := unparen(as.Rhs[i]).(*ast.CallExpr)
+				if !ok || len(call.Args) != 0 {
+					continue
+				}
+				sel, ok := unparen(call.Fun).(*ast.SelectorExpr)
+				if !ok || (sel.Sel.Name != "Level" && sel.Sel.Name != "LevelQ") {
+					continue
+				}
+				src := rootIdent(sel.X)
+				if src == nil || !params[info.Uses[src]] || info.Uses[src] == types.Object(outP) {
+					continue
+				}
+				lv := info.Defs[id]
+				if lv == nil {
+					continue
+				}
+				mentionsLv := func(e ast.Node) bool {
+					f := false
+					ast.Inspect(e, func(y ast.Node) bool {
+						if yid, ok := y.(*ast.Ident); ok && info.Uses[yid] == lv {
+							f = true
+						}
+						return !f
+					})
+					return f
+				}
+				mentionsOut := func(e ast.Node) bool {
+					f := false
+					ast.Inspect(e, func(y ast.Node) bool {
+						if yid, ok := y.(*ast.Ident); ok && info.Uses[yid] == types.Object(outP) {
+							f = true
+						}
+						return !f
+					})
+					return f
+				}
+				working, applied := false, ""
+				ast.Inspect(fd.Body, func(y ast.Node) bool {
+					switch v := y.(type) {
+					case *ast.CallExpr:
+						if s, ok := unparen(v.Fun).(*ast.SelectorExpr); ok {
+							if s.Sel.Name == "AtLevel" && len(v.Args) >= 1 && mentionsLv(v.Args[0]) {
+								working = true
+							}
+							if s.Sel.Name == "Resize" && mentionsOut(s.X) && len(v.Args) == 2 && mentionsLv(v.Args[1]) {
+								applied = "Resize at " + c.Rel(v.Pos())
+							}
+						}
+						// the level handed to a ring-level operation (CopyLvl(level, …), ModDown…(level, …))
+						if s, ok := unparen(v.Fun).(*ast.SelectorExpr); !ok || s.Sel.Name != "Resize" {
+							for _, a := range v.Args {
+								if aid, ok := unparen(a).(*ast.Ident); ok && info.Uses[aid] == lv {
+									working = true
+								}
+							}
+						}
+						// handed on together with the level
+						hasOut, hasLv := false, false
+						for _, a := range v.Args {
+							if rid := rootIdent(a); rid != nil && info.Uses[rid] == types.Object(outP) {
+								hasOut = true // opOut, opOut[i], opOut.El()
+							}
+							if aid, ok := unparen(a).(*ast.Ident); ok && info.Uses[aid] == lv {
+								hasLv = true
+							}
+						}
+						if hasOut && hasLv && applied == "" {
+							applied = "handed on with the level at " + c.Rel(v.Pos())
+						}
+					case *ast.BinaryExpr:
+						switch v.Op {
+						case token.EQL, token.NEQ, token.LSS, token.GTR, token.LEQ, token.GEQ:
+							if mentionsOut(v) && (mentionsLv(v) || strings.Contains(exprString(v), exprString(as.Rhs[i]))) && strings.Contains(exprString(v), "Level") {
+								applied = "compared at " + c.Rel(v.Pos())
+							}
+						}
+					}
+					return true
+				})
+				if !working {
+					continue
+				}
+				n++
+				key := fmt.Sprintf("OUTLEVEL1:%s#%s", fkey, id.Name)
+				if applied != "" {
+					out = append(out, withProps(okOb("OUTLEVEL1", key, c.Rel(as.Pos()), "the working level "+id.Name+" is applied to opOut: "+applied, true), propsForKey(fkey)...))
+				} else {
+					out = append(out, withProps(violOb("OUTLEVEL1", key, c.Rel(as.Pos()), fmt.Sprintf("%s computes at %s := %s and never brings opOut to that level (no Resize of opOut with it, no comparison of opOut's level with it): a receiver allocated at a higher level keeps its upper residues, unrelated to the result, under a level that declares them valid", fkey, id.Name, exprString(as.Rhs[i]))), propsForKey(fkey)...))
+				}
+			}
+			return true
+		})
+	})
+	c.Stats["outlevel1_defs"] = n
+	return out
+}
+
+func init() {
+	all := []string{"C20", "C04", "C05", "C06", "C11", "C12", "C13", "C18"}
+	core.Register(&core.Rule{Name: "OUTLEVEL1", Wide: true, Props: all,
+		Doc: "in an exported method with a parameter opOut, a working level defined as the Level()/LevelQ() of another parameter and used for AtLevel is also applied to opOut (Resize with it, a comparison of opOut's level with it, or opOut handed on together with it)",
+		Run: func(c *core.Ctx) []ob {
+			out := scanOutLevel1(c)
+			for _, o := range control(c, "OUTLEVEL1", scanOutLevel1, "(fixEvaluator).ProductAtKeyLevel") {
+				out = append(out, withProps(o, "C20"))
+			}
+			return out
+		}})
+}
